@@ -26,7 +26,7 @@ def cases(tier):
         for dims in itertools.product([2, 3] if (q or d == 4) else [2, 3, 4], repeat=d):
             for m in ((3, 4, 5, 6) if q else (3, 4, 5, 6, 8, 10)):
                 for fam, thr in (('generic', 0), ('generic', 1e-10), ('lowrank2', 1e-10), ('lowrank3', 1e-10), ('smalleig', 1e-2), ('smalleig', 1e-10),
-                                 ('impulses', 0), ('impulses', 1e-10), ('nearcut', 1e-3), ('nearcut', 1e-6), ('coarsecut', 0.1), ('rank1bond', 1e-10), ('rank1bond', 0)):
+                                 ('impulses', 0), ('impulses', 1e-10), ('nearsym', 0), ('nearsym', 1e-10), ('nearcut', 1e-3), ('nearcut', 1e-6), ('coarsecut', 0.1), ('rank1bond', 1e-10), ('rank1bond', 0)):
                     for rep in ('ttsvd', 'over', 'split', 'orthod'):
                         for fl in ('TT', 'FT', 'TF', 'FF'):
                             if rep in ('over', 'split', 'orthod') and fl != 'TT':
@@ -59,6 +59,16 @@ def make_data(rng, dims, m, fam, thr=0):
             i_ = int(np.argmax(np.abs(X[:, j])))
             Y[i_, j] = X[i_, j] * lam[j % k]
         return X, Y
+    if fam == 'nearsym':
+        # weakly non-reversible linear dynamics A = S + 1e-6 K (S symmetric with the spectrum 0.9 .. 0.2, K skew of norm one) on
+        # well-conditioned snapshots (singular values 3 .. 1): the reduced matrix is symmetric up to 1e-6 but not symmetric
+        k = min(N, m)
+        Q = np.linalg.qr(rng.standard_normal((N, N)))[0]
+        S = (Q * np.linspace(0.9, 0.2, N)) @ Q.T
+        K = rng.standard_normal((N, N)); K = K - K.T; K = K / max(1e-300, np.linalg.norm(K, 2))
+        U = np.linalg.qr(rng.standard_normal((N, k)))[0]; V = np.linalg.qr(rng.standard_normal((m, k)))[0]
+        X = (U * np.linspace(3.0, 1.0, k)) @ V.T
+        return X, (S + 1e-6 * K) @ X
     if fam == 'coarsecut':
         # singular values 1, .6, .3, .05, .03 and a relative cut of 0.1 that discards two directions which are far from negligible
         k = min(N, m, 5)
